@@ -36,6 +36,9 @@ def cases(tier, seed):
     for i in range(40 if tier == "quick" else 1500):
         # writers forked from one process that had already opened the store (pre-forked workers)
         yield {"kind": "forked_writers", "seed": seed, "idx": i, "config": CONFIGS[i % 3]}
+    for config in ("fs", "fs+1MiB"):
+        # two writers in one process, interleaved at every yield point of the storage code
+        yield {"kind": "two_writers", "config": config}
     n, length = (300, 25) if tier == "quick" else (10000, 40)
     for i in range(n):
         # every fourth history contains writes that a kernel-level file size limit cuts short (the caller sees an
@@ -134,7 +137,83 @@ def finish(out):
     return out
 
 
+def run_two_writers(case):
+    """Two threads store different results under one override key, under schedule control (one preemption at every yield
+    point of the storage code, each thread starting once): afterwards each writer's memento reads the value that writer
+    stored - or that writer saw an error and left nothing published."""
+    from checks import c09
+    from vf import sched
+
+    out = {"viol": [], "nontrivial": [], "obs": collections.Counter(), "sets": {"content_hashes": set()}}
+    c09.ensure_monitor("quick")
+    vals = {0: "writer-0-" + "a" * 300, 1: {"writer": 1, "payload": ["b"] * 40}}
+    with env.Scratch() as sc:
+        def one_run(n, strategy):
+            refs = storeops.Refs("c")
+            root = sc.path("w%d" % n)
+            b = env.fs_backend(root, cache_mb=None if case["config"] == "fs" else 1)
+            sched.reset_mutexes()
+            ms = [refs.memento(0, 0, vals[0]), refs.memento(1, 1, vals[1])]
+            errs = {}
+
+            def body(i):
+                def run():
+                    try:
+                        b.memoize("ovr/shared", ms[i], vals[i])
+                    except Exception as e:  # (a writer may be told that its write failed)
+                        errs[i] = e
+                return run
+
+            s_ = sched.Sched(strategy)
+            s_.run([body(0), body(1)])
+            if s_.inconclusive or s_.deadlock:
+                return s_, None
+            plain = env.fs_backend(root)
+            bad = []
+            for i in (0, 1):
+                if i in errs:
+                    continue
+                m = plain.get_memento(refs.fwah(i, i))
+                if m is None:
+                    bad.append(("a writer that saw no error left no memento", "writer %d" % i))
+                    continue
+                try:
+                    got = plain.read_result(m)
+                except Exception as e:
+                    bad.append(("live memento became unreadable", "writer %d: %r" % (i, e)))
+                    continue
+                if not domain.eq(got, vals[i]):
+                    bad.append(("a memento reads bytes other than those stored when it was created",
+                                "writer %d stored %s, its memento reads %s" % (i, domain.describe(vals[i], 40), domain.describe(got, 40))))
+            return s_, bad
+
+        n = 0
+        for first in (0, 1):
+            base, _ = one_run(n, sched.PreemptAt({}, first))
+            n += 1
+            total = base.step
+            out["obs"]["yield_points_in_unpreempted_run"] += total
+            for k in range(1, total + 1):
+                s_, bad = one_run(n, sched.PreemptAt({k: ("other", 0)}, first))
+                n += 1
+                out["obs"]["two_writer_schedules"] += 1
+                if bad is None:
+                    out["obs"]["watchdog_firings"] += 1
+                    continue
+                if any(t[3] == "preempt" for t in s_.trace):
+                    out["nontrivial"].append("two_writers/%s/%d/%d" % (case["config"], first, k))
+                for sig, msg in bad:
+                    if len(out["viol"]) < 6:
+                        out["viol"].append({"sig": sig, "msg": "two writers under one override key, config %s, thread %d starts, preempted at yield "
+                                                               "point %d: %s" % (case["config"], first, k, msg)})
+    out["obs"] = dict(out["obs"])
+    out["sets"] = {k: sorted(v) for k, v in out["sets"].items()}
+    return out
+
+
 def run_case(case):
+    if case.get("kind") == "two_writers":
+        return run_two_writers(case)
     if case.get("kind") == "forked_writers":
         return run_forked_writers(case)
     if case.get("kind") == "repo_tests":
